@@ -3,7 +3,6 @@ package logr
 import (
 	"errors"
 	"fmt"
-	"log"
 	"os"
 	"path/filepath"
 	"strings"
@@ -11,6 +10,19 @@ import (
 	"Havoc/pkg/common"
 	"Havoc/pkg/logger"
 )
+
+// validAgentID
+// an agent id names exactly one folder below the agents directory.
+func validAgentID(AgentID string) bool {
+	return AgentID != "" && AgentID != "." && AgentID != ".." && AgentID == filepath.Base(AgentID) && !strings.ContainsAny(AgentID, "/\\\x00")
+}
+
+// insideDir
+// reports if the cleaned path lies inside dir ("Download2" is not inside "Download").
+func insideDir(path, dir string) bool {
+	dir = filepath.Clean(dir)
+	return strings.HasPrefix(filepath.Clean(path), dir+"/")
+}
 
 func (l Logr) AddAgentInput(AgentType, AgentID, User, TaskID, Input string, time string) {
 	var (
@@ -20,8 +32,7 @@ func (l Logr) AddAgentInput(AgentType, AgentID, User, TaskID, Input string, time
 	)
 
 	// check if we don't have a path traversal
-	path := filepath.Clean(DemonLogFile)
-	if !strings.HasPrefix(path, DemonPath) {
+	if !validAgentID(AgentID) || !insideDir(DemonLogFile, DemonPath) {
 		logger.Error("File didn't started with agent loot path. abort")
 		return
 	}
@@ -35,8 +46,11 @@ func (l Logr) AddAgentInput(AgentType, AgentID, User, TaskID, Input string, time
 
 	f, err := os.OpenFile(DemonLogFile, os.O_APPEND|os.O_CREATE|os.O_WRONLY, 0644)
 	if err != nil {
-		log.Fatal(err)
+		// a log file that can't be opened is no reason to take the teamserver down
+		logger.Error("Failed to open File [" + DemonLogFile + "]: " + err.Error())
+		return
 	}
+	defer f.Close()
 
 	InputString = fmt.Sprintf("\n[Time: %v] [User: %v] [TaskID: %v] %v => %v\n", time, User, TaskID, AgentType, Input)
 
@@ -54,8 +68,7 @@ func (l Logr) AddAgentRaw(AgentID, Raw string) {
 	)
 
 	// check if we don't have a path traversal
-	path := filepath.Clean(DemonLogFile)
-	if !strings.HasPrefix(path, DemonPath) {
+	if !validAgentID(AgentID) || !insideDir(DemonLogFile, DemonPath) {
 		logger.Error("File didn't started with agent loot path. abort")
 		return
 	}
@@ -69,8 +82,11 @@ func (l Logr) AddAgentRaw(AgentID, Raw string) {
 
 	f, err := os.OpenFile(DemonLogFile, os.O_APPEND|os.O_CREATE|os.O_WRONLY, 0644)
 	if err != nil {
-		log.Fatal(err)
+		// a log file that can't be opened is no reason to take the teamserver down
+		logger.Error("Failed to open File [" + DemonLogFile + "]: " + err.Error())
+		return
 	}
+	defer f.Close()
 
 	_, err = f.Write([]byte(Raw))
 	if err != nil {
@@ -86,8 +102,7 @@ func (l Logr) DemonAddOutput(DemonID string, Output map[string]string, time stri
 	)
 
 	// check if we don't have a path traversal
-	path := filepath.Clean(DemonLogFile)
-	if !strings.HasPrefix(path, DemonPath) {
+	if !validAgentID(DemonID) || !insideDir(DemonLogFile, DemonPath) {
 		logger.Error("File didn't started with agent loot path. abort")
 		return
 	}
@@ -101,8 +116,11 @@ func (l Logr) DemonAddOutput(DemonID string, Output map[string]string, time stri
 
 	f, err := os.OpenFile(DemonLogFile, os.O_APPEND|os.O_CREATE|os.O_WRONLY, 0644)
 	if err != nil {
-		log.Fatal(err)
+		// a log file that can't be opened is no reason to take the teamserver down
+		logger.Error("Failed to open File [" + DemonLogFile + "]: " + err.Error())
+		return
 	}
+	defer f.Close()
 
 	var OutputString string
 
@@ -139,8 +157,7 @@ func (l Logr) DemonAddDownloadedFile(DemonID, FileName string, FileBytes []byte)
 	)
 
 	// check if we don't have a path traversal
-	path := filepath.Clean(DemonDownload)
-	if !strings.HasPrefix(path, DemonDownloadDir) {
+	if !validAgentID(DemonID) || !insideDir(DemonDownload, DemonDownloadDir) {
 		logger.Error("File didn't started with agent download path. abort")
 		return
 	}
@@ -182,8 +199,7 @@ func (l Logr) DemonSaveScreenshot(DemonID, Name string, BmpBytes []byte) error {
 	)
 
 	// check if we don't have a path traversal
-	path := filepath.Clean(DemonScreenshot)
-	if !strings.HasPrefix(path, DemonScreenshotDir) {
+	if !validAgentID(DemonID) || !insideDir(DemonScreenshot, DemonScreenshotDir) {
 		logger.Error("File didn't started with agent screenshot path. abort")
 		return errors.New("file didn't started with agent screenshot path. abort")
 	}
